@@ -431,7 +431,37 @@ def check_chain(c, st):
     if c.get('visit') == 'bump-ints':
         def visit(path, key, value):
             return key, (value + 1 if type(value) is int else value)
+    calls = []
+    if c.get('visit') == 'paths':
+        def visit(path, key, value):
+            calls.append((path, key, value))
+            return True
     got = common.outcome(lambda: iu.remap(x, visit=visit) if visit else iu.remap(x))
+    if got[0] == 'ok' and c.get('visit') == 'paths':
+        # every visit call names its item by the keys that lead to it from the root, at every depth
+        depth = c['depth']
+        keyseq = []
+        for d in range(depth):
+            k = kinds[(depth - 1 - d) % len(kinds)]
+            keyseq.append('k' if k == 'dict' else 1 if k == 'wide' else 0)
+        keyseq = tuple(keyseq)
+        seen = set()
+        for path, key, value in calls:
+            n_ = len(path)
+            if n_ >= depth or tuple(path) != keyseq[:n_]:
+                return ('deep-chain:visit-path', 'visit called with a path of %d keys %r... for an item %d levels down; '
+                        'the keys leading there are %r...' % (n_, tuple(path)[-3:], n_, keyseq[max(0, n_ - 3):n_]))
+            wide = kinds[(depth - 1 - n_) % len(kinds)] == 'wide'
+            if not (key == keyseq[n_] or (wide and key in (0, 2))):
+                return ('deep-chain:visit-path', 'visit called with key %r at depth %d' % (key, n_))
+            if wide and key == 0 and value != depth - 1 - n_:
+                return ('deep-chain:visit-path', 'visit(path of %d keys, 0, %r): the item there is %r'
+                        % (n_, value, depth - 1 - n_))
+            seen.add((n_, key))
+        want_calls = sum(3 if kinds[(depth - 1 - d) % len(kinds)] == 'wide' else 1 for d in range(depth))
+        if len(calls) != want_calls or len(seen) != want_calls:
+            return ('deep-chain:visit-path', '%d visit calls (%d distinct items) for %d items' % (len(calls), len(seen), want_calls))
+        st.count('deep_chain_visit_paths_checked', len(calls))
     if got[0] != 'ok':
         return ('deep-chain:raised:' + got[1], 'remap of %d containers nested in one another (%s) raised %s'
                 % (c['depth'], '/'.join(kinds), got[1]))
@@ -448,7 +478,7 @@ def check_chain(c, st):
         if isinstance(a, dict):
             a, b = a['k'], b.get('k')
         elif len(a) == 3:
-            if b[0] != a[0] + (1 if visit else 0) or b[2] is not None:
+            if b[0] != a[0] + (1 if c.get('visit') == 'bump-ints' else 0) or b[2] is not None:
                 return ('deep-chain:differs', 'level %d: siblings %r vs %r' % (d, (a[0], a[2]), (b[0], b[2])))
             a, b = a[1], b[1]
         else:
@@ -737,6 +767,12 @@ def run(ctx):
     mine = [c for i, c in enumerate(chains) if i % ctx.nshards == ctx.shard % len(chains)]
     for c in (mine if ctx.thorough else mine[:1]):
         run_case(ctx, c, check, 'chain', None, {})
+    path_chains = [{'kind': 'chain', 'depth': d, 'kinds': k, 'visit': 'paths'} for d, k in
+                   ((450, ['wide', 'dict']), (300, ['list', 'wide', 'dict']), (700, ['wide']), (260, ['dict', 'tuple', 'wide']),
+                    (1500, ['wide', 'list']), (130, ['wide']), (210, ['dict', 'wide']), (999, ['tuple', 'wide', 'wide']))]
+    for j, c in enumerate(path_chains):
+        if j % ctx.nshards == ctx.shard % len(path_chains):
+            run_case(ctx, c, check, 'chain', None, {})
     if ctx.thorough:
         explore_cases(ctx, lambda r: gen(r, 25, 9), check, n // 3, 'deep', shrink)
     explore_cases(ctx, gen, check, n, 'remap', shrink)
